@@ -236,9 +236,11 @@ func (e *Engine) evalGhostCall(c *FnCtx, env *Env, x *ECall) (Val, bool) {
 		return Val{T: tBool, E: c.protoEqualTerm(env.st, a.E, b.E)}, true
 	case "calls":
 		name := x.Args[0].(*EIdent).Name
+		c.mustTrack(name, "calls")
 		return Val{T: tMath, E: c.heapGet(env.st, c.comp("ghost$calls$"+name, "Int"))}, true
 	case "lastarg":
 		name := x.Args[0].(*EIdent).Name
+		c.mustTrack(name, "lastarg")
 		k := x.Args[1].(*EInt).V
 		comp := "ghost$arg$" + name + "$" + k
 		t, ok := c.trackArgT[comp]
@@ -249,6 +251,7 @@ func (e *Engine) evalGhostCall(c *FnCtx, env *Env, x *ECall) (Val, bool) {
 	case "lastheld", "lastheldW", "lastgen":
 		// lock state at the latest tracked call of the named callee
 		name := x.Args[0].(*EIdent).Name
+		c.mustTrack(name, x.Fun)
 		mu := c.eval(env, x.Args[1])
 		if x.Fun == "lastgen" {
 			return Val{T: tMath, E: "(select " + c.heapGet(env.st, c.comp("ghost$callgen$"+name, "(Array Int Int)")) + " " + mu.E + ")"}, true
@@ -604,3 +607,16 @@ func init() {
 }
 
 var _ = fmt.Sprintf
+
+// mustTrack: ghost call counters exist only for the callees the contract being verified tracks; a callee's clause that
+// speaks about calls the caller does not track has no meaning at that call site (and is skipped there).
+func (c *FnCtx) mustTrack(name, what string) {
+	if c.spec != nil {
+		for _, t := range c.spec.Track {
+			if t == name {
+				return
+			}
+		}
+	}
+	panic(specError(what + "(" + name + "): no tracked call"))
+}
